@@ -1668,7 +1668,7 @@ def _convert_if_zero(value: Any, atol: float = 1e-12):
         if np.allclose(value, 0, atol=atol):
             return zero
     elif sparse.issparse(value):
-        if value.count_nonzero() == 0:
+        if value.count_nonzero() == 0 or abs(value).max() <= atol:
             return zero
     elif isinstance(value, sympy.MatrixBase):
         if value.is_zero_matrix:
